@@ -343,6 +343,36 @@ pub fn eval(inp: &Input) -> Out {
                     if res != Some(ConnRes::Err(ErrKind::InvalidPacket)) {
                         bad(&mut v, format!("C08/malformed-accepted/before-connack/{k}"), format!("malformed ({k}) first packet {}: connect() returned {res:?}, expected InvalidPacket", hex(&inp.bytes)));
                     }
+                    // "never partially acted upon": the same bytes as the answer to the CONNECT of a
+                    // session that has operations in flight must leave their handles untouched
+                    if inp.bytes.first() == Some(&0x20) {
+                        let io2 = IoCfg { read_chunks: inp.read_chunks.clone(), write_chunks: vec![], pend_first: false, read_cuts: vec![] };
+                        let case2 = Case {
+                            cfg: base_cfg(),
+                            broker: BrokerMode::Scripted,
+                            conns: vec![
+                                ConnScript { connect: ConnectSpec::default(), steps: prelude(), end: EndHow::Drop },
+                                ConnScript { connect: ConnectSpec { handshake: Handshake::Garbage(inp.bytes.clone()), io: io2, ..ConnectSpec::default() }, steps: vec![], end: EndHow::Drop },
+                            ],
+                        };
+                        let t2 = run_case(&case2);
+                        let mut before: Option<Vec<HStatus>> = None;
+                        let mut after: Option<Vec<HStatus>> = None;
+                        let mut second = false;
+                        for e in &t2.events {
+                            match e {
+                                Event::ConnStart { tr: 1, .. } => second = true,
+                                Event::Sample(smp) if !second => before = Some(smp.handles.clone()),
+                                Event::Sample(smp) => after = Some(smp.handles.clone()),
+                                _ => {}
+                            }
+                        }
+                        if let (Some(b), Some(a)) = (before, after) {
+                            if b.len() == PRELUDE_HANDLES && a != b && t2.conns.get(1).is_some_and(|c| !c.1.is_ok()) {
+                                bad(&mut v, format!("C08/malformed-connack-acted-upon/{k}"), format!("malformed ({k}) CONNACK {} answering the CONNECT of a session with operations in flight: connect() failed but the handles changed from {b:?} to {a:?}", hex(&inp.bytes)));
+                            }
+                        }
+                    }
                 }
                 Class::Valid(Packet::ConnAck { session_present: false, reason, props }) => {
                     judged = true;
